@@ -44,7 +44,9 @@ fn main() {
     std::panic::set_hook(Box::new(|_| {}));
     let cx = Ctx::new(&id, tier);
     match id.as_str() {
+        "C02" => props::c02::run(cx),
         "C05" => props::c05::run(cx),
+        "C07" => props::c07::run(cx),
         "C08" => props::c08::run(cx),
         "C10" => props::c10::run(cx),
         "C11" => props::c11::run(cx),
